@@ -25,7 +25,94 @@ def T(x):
     return normal(x).text() if isinstance(x, P) else str(x)
 
 
-def make_run(it, settings):
+# ---- linear problem: f_int(c) = K c, tangent K, f_ext(t) = t F, exact solve.  Every state the driver can form is a multiple of
+# u = K^-1 F and every force vector a multiple of F, so vectors are carried as their scalar coefficient (exact for any number of
+# dofs); max|phi F| = |phi| Fm with Fm = max|F| > 0, u.F = uF > 0 (K positive definite).
+FM, UF = real('Fm'), real('uF')
+
+
+class KMat(Vec):
+    def __init__(self):
+        Vec.__init__(self, ('K',))
+
+    def sym_havoc(self, name, tag):
+        return KMat()           # sort invariant "is the stiffness matrix"; asserted at the back edges (linear: kT is K)
+
+
+class _Lin(Vec):
+    kind = None
+
+    def __init__(self, coef):
+        self.coef = normal(coef if isinstance(coef, P) else P.const(coef))
+        Vec.__init__(self, (self.kind, self.coef.text()))
+
+    def _coef(self, o):
+        o = pysym._unwrap0(o)
+        if isinstance(o, (int, float, Fraction)) and not isinstance(o, bool):
+            return P.const(o)
+        return o if isinstance(o, P) else None
+
+    def __add__(self, o):
+        if type(o) is type(self):
+            return type(self)(self.coef + o.coef)
+        raise CheckerError('linear scenario: %r + %r' % (self, o))
+
+    __radd__ = __add__
+
+    def __sub__(self, o):
+        if type(o) is type(self):
+            return type(self)(self.coef - o.coef)
+        raise CheckerError('linear scenario: %r - %r' % (self, o))
+
+    def __rsub__(self, o):
+        if type(o) is type(self):
+            return type(self)(o.coef - self.coef)
+        raise CheckerError('linear scenario: %r - %r' % (o, self))
+
+    def __mul__(self, o):
+        k = self._coef(o)
+        if k is None:
+            raise CheckerError('linear scenario: %r * %r' % (self, o))
+        return type(self)(self.coef * k)
+
+    __rmul__ = __mul__
+
+    def __neg__(self):
+        return type(self)(-self.coef)
+
+    def sym_havoc(self, name, tag):
+        v = type(self)(real('%s%s' % (name, tag)))
+        v.maybe_held = True
+        return v
+
+    def sym_maxabs(self, interp):
+        return interp.builtins['abs'](self.coef) * FM
+
+    def sym_getattr(self, interp, name):
+        if name == 'copy':
+            def cp():
+                v = type(self)(self.coef)
+                v.fresh_copy = True
+                return v
+            return cp
+        if name == 'dot':
+            def dot(o):
+                if isinstance(o, _Lin) and o.kind != self.kind:
+                    return self.coef * o.coef * UF
+                raise CheckerError('linear scenario: dot of %r and %r' % (self, o))
+            return dot
+        return Vec.sym_getattr(self, interp, name)
+
+
+class LinU(_Lin):
+    kind = 'lin-u'
+
+
+class LinF(_Lin):
+    kind = 'lin-F'
+
+
+def make_run(it, settings, linear=False):
     """an Analysis object built by the real constructor, with symbolic settings and uninterpreted callables"""
     amod = it.module('compmech.analysis.analysis')
     log = []
@@ -42,6 +129,15 @@ def make_run(it, settings):
 
     def calc_kT(c=None, inc=None, silent=False, **kw):
         return Vec(('KT', c.term, T(inc)))
+    if linear:
+        def need_u(c):
+            if not isinstance(c, LinU):
+                raise CheckerError('linear scenario: state %r is not a multiple of K^-1 F' % (c,))
+            return c
+        calc_fext = lambda inc=None, silent=False, **kw: LinF(inc)
+        calc_k0 = lambda silent=False, **kw: KMat()
+        calc_fint = lambda c=None, inc=None, silent=False, **kw: LinF(need_u(c).coef)
+        calc_kT = lambda c=None, inc=None, silent=False, **kw: (need_u(c), KMat())[1]
     run = it.call(amod.g['Analysis'], [calc_fext, calc_k0, calc_fint, calc_kT], {})
     run.name = 'run'
     for k, v in settings.items():
@@ -90,16 +186,22 @@ def check_mu_exists(led, it, s):
         led.undecide(name, NRF, 'z3 unknown')
 
 
-def install_contracts(it):
-    it.contracts['compmech.sparse.solve'] = lambda itp, a, kw: Vec(('solve', a[0].term, a[1].term))
+def install_contracts(it, linear=False):
+    def lin_solve(itp, a, kw):
+        if not isinstance(a[0], KMat) or not isinstance(a[1], LinF):
+            raise CheckerError('linear scenario: solve(%r, %r)' % (a[0], a[1]))
+        return LinU(a[1].coef)
+    it.contracts['compmech.sparse.solve'] = lin_solve if linear else (lambda itp, a, kw: Vec(('solve', a[0].term, a[1].term)))
     it.contracts['compmech.logger.msg'] = lambda itp, a, kw: None
     it.contracts['compmech.logger.warn'] = lambda itp, a, kw: None
 
 
-def explore_solver(led, modified, line_search, kT_initial, kappa=Fraction(2)):
+def explore_solver(led, modified, line_search, kT_initial, kappa=Fraction(2), linear=False):
     it = Interp()
     shims.install(it)
-    install_contracts(it)
+    install_contracts(it, linear)
+    if linear:
+        it.facts += [to_z3(FM) > 0, to_z3(UF) > 0]
     it.algebraic_minmax = True
     it.feas_timeout = 1000
     s = settings_symbolic(it)
@@ -121,12 +223,20 @@ def explore_solver(led, modified, line_search, kT_initial, kappa=Fraction(2)):
         if not isinstance(v, Vec) or t is None:
             itp.path.obligations.append(('syntactic', 'report/equilibrated', False, []))
             return
-        resid = Vec(('-', ('FEXT', T(t)), ('FINT', v.term, T(t))))
-        goal = pysym.compare('<', maxabs(resid), s['absTOL'])
+        if linear:
+            if not isinstance(v, LinU):
+                raise CheckerError('linear scenario: reported state %r' % (v,))
+            goal = pysym.compare('<', (LinF(t) - LinF(v.coef)).sym_maxabs(itp), s['absTOL'])
+            itp.path.obligations.append(('assert', 'report/linear-problem: the reported state is the linear solution t*K^-1*F', pysym.compare('==', v.coef, t), list(itp.path.conds)))
+        else:
+            resid = Vec(('-', ('FEXT', T(t)), ('FINT', v.term, T(t))))
+            goal = pysym.compare('<', maxabs(resid), s['absTOL'])
         itp.path.obligations.append(('assert', 'report/equilibrated: max|fext(t)-fint(c,t)| < absTOL', goal, list(itp.path.conds)))
     incs = GhostList('increments', 'real', on_inc)
     cs = GhostList('cs', 'vec', on_c)
-    tag = 'modified=%s,line_search=%s,kT_initial=%s' % (modified, line_search, kT_initial)
+    if linear:
+        cs.proto = LinU(0)
+    tag = '%smodified=%s,line_search=%s,kT_initial=%s' % ('linear-problem,' if linear else '', modified, line_search, kT_initial)
 
     def outer_inv(itp, fr):
         inc, total = to_z3(fr.l['inc']), to_z3(fr.l['total'])
@@ -177,7 +287,14 @@ def explore_solver(led, modified, line_search, kT_initial, kappa=Fraction(2)):
         conv = fr.l['converged']
         it_ = to_z3(fr.l['iteration'])
         c = conv.neg() if isinstance(conv, Cond) else Cond('const', not conv)
-        return [('not-converged-at-loop-head', cond_z3(c)), ('iteration>=0', it_ >= 0)]
+        out = [('not-converged-at-loop-head', cond_z3(c)), ('iteration>=0', it_ >= 0)]
+        if linear:
+            cv = fr.l['c']
+            out += [('linear-problem: at most one iteration done', it_ <= 1),
+                    ('linear-problem: after one iteration the state is total*K^-1*F',
+                     z3.Implies(it_ >= 1, to_z3(cv.coef) == to_z3(fr.l['total'])) if isinstance(cv, LinU) else z3.BoolVal(False)),
+                    ('linear-problem: the tangent in use is K', z3.BoolVal(isinstance(fr.l['kT'], KMat)))]
+        return out
 
     m = it.module('compmech.analysis.newton_raphson')
     f = m.g['_solver_NR']
@@ -187,8 +304,9 @@ def explore_solver(led, modified, line_search, kT_initial, kappa=Fraction(2)):
         raise CheckerError('_solver_NR: expected 4 while loops (load steps, iterations, line search, bisection), found %d' % len(whiles))
     outer, inner, ls, bis = whiles
     it.loop_modes[(Q, outer.lineno)] = InvariantWhile('load-step-loop', outer_inv, variant=outer_var, ghosts=(incs, cs), owned=('c',),
-                                                      sorts={'c': Vec(('c',)), 'kT': Vec(('kT',)), 'kT_last': Vec(('kT',)), 'fext': Vec(('f',))})
-    it.loop_modes[(Q, inner.lineno)] = InvariantWhile('iteration-loop', inner_inv, variant=inner_var, sorts={'c': Vec(('c',)), 'kT': Vec(('kT',))})
+                                                      sorts=({'c': LinU(0), 'kT': KMat(), 'kT_last': KMat(), 'fext': LinF(0)} if linear else
+                                                             {'c': Vec(('c',)), 'kT': Vec(('kT',)), 'kT_last': Vec(('kT',)), 'fext': Vec(('f',))}))
+    it.loop_modes[(Q, inner.lineno)] = InvariantWhile('iteration-loop', inner_inv, variant=inner_var, sorts=({'c': LinU(0), 'kT': KMat()} if linear else {'c': Vec(('c',)), 'kT': Vec(('kT',))}))
     it.loop_modes[(Q, ls.lineno)] = InvariantWhile('line-search-loop', ls_inv, variant=ls_var) if LS_CHECKED else invloop.HavocLoop('line-search-loop', sorts={'c1': Vec(('c',)), 'c2': Vec(('c',)), 'fint1': Vec(('f',)), 'fint2': Vec(('f',)), 'R1': Vec(('f',)), 'R2': Vec(('f',)), 's1': real('s'), 's2': real('s'), 'eta_new': real('e')})
     it.loop_modes[(Q, bis.lineno)] = InvariantWhile('bisection-loop', lambda itp, fr: outer_bis_inv(itp, fr, incs), variant=bis_var)
     holder = {}
@@ -203,8 +321,15 @@ def explore_solver(led, modified, line_search, kT_initial, kappa=Fraction(2)):
         else:
             ne = z3.BoolVal(bool(incs.appended))
             last = to_z3(incs.last) if incs.appended else z3.RealVal(0)
-        goal = z3.Or(to_z3(inc) < to_z3(s['minInc']), z3.And(ne, last == 1))
-        itp.path.obligations.append(('assert', 'exit/last-load-factor==1-or-increment-below-minimum', goal, list(itp.path.conds)))
+        if linear:
+            # the linear problem is never abandoned: a state was reported and the last one lies in the driver's window |t - 1| < 1e-3
+            # (that the window is not exactly t == 1 is the known finding of the general run)
+            w = z3.RealVal(str(Fraction(1e-3)))          # the driver's constant 1e-3 as the double it is
+            goal = z3.And(ne, last - 1 < w, 1 - last < w)
+            itp.path.obligations.append(('assert', 'exit/linear-problem: solved up to the full load (|last load factor - 1| < 1e-3)', goal, list(itp.path.conds)))
+        else:
+            goal = z3.Or(to_z3(inc) < to_z3(s['minInc']), z3.And(ne, last == 1))
+            itp.path.obligations.append(('assert', 'exit/last-load-factor==1-or-increment-below-minimum', goal, list(itp.path.conds)))
         # reported states are never altered afterwards (no in-place update of an object held by run.cs)
         held = set()
         bad = []
@@ -221,7 +346,7 @@ def explore_solver(led, modified, line_search, kT_initial, kappa=Fraction(2)):
         del cs.appended[:]
         incs.sym = cs.sym = False
         incs.last = cs.last = None
-        run = make_run(it, s)
+        run = make_run(it, s, linear)
         run.attrs['increments'] = incs
         run.attrs['cs'] = cs
         holder['run'] = run
@@ -465,6 +590,15 @@ def body(led):
             if first:
                 check_mu_exists(led, it, s)
                 first = False
+    # the linear-problem clause, line search off (with the line search on, the first step divides 0 by 0 in exact arithmetic)
+    for modified in (True, False):
+        it, res, incs, cs, tag, s = explore_solver(led, modified, False, True, linear=True)
+        total_paths += len(res)
+        seen = evaluate(led, it, res, tag, only=lambda n: 'linear-problem' in n or 'iteration-loop' in n)
+        led.solver_time('z3-feasibility', it.solver_time)
+        if not any('exit/linear-problem' in n for n in seen) or not any('report/linear-problem' in n for n in seen):
+            raise CheckerError('linear scenario: the exit / report obligations were not generated')
+        discharge(led, seen)
     led.extra['paths'] = total_paths
     check_static(led)
     dyn = dynamic_grid()
@@ -473,8 +607,9 @@ def body(led):
         led.fail('newton_raphson.py:_solver_NR/bounded-run-time-contracts', NRF, {'grid': dyn}, backend='run-time(bounded)', replay=dyn, signature='dynamic-grid')
     led.assume('C09 termination: the user callables and solve() return; the settings meet the preconditions initialInc in (0,1], minInc > 0, '
                'maxInc >= initialInc, maxNumIter >= 2, max_iter_line_search >= 1 (integers); floats are reals (a NaN residual is outside the model)')
+    led.assume('C09 linear-problem clause: f_int(c) = K c with K symmetric positive definite, f_ext(t) = t F, solve() exact; proved for line_search=False')
     led.extra['unchecked_clauses'] = [
-                                     'linear problem reaches lambda=1 with the linear solution: bounded run-time stand-in only']
+                                     'linear problem with line_search=True (the default): bounded run-time stand-in only (the first step divides 0 by 0 in exact arithmetic and leaves the line search through NaN comparisons)']
 
 
 def check_static(led):
